@@ -175,7 +175,7 @@ def _run_config(c):
     args = RHEOS[rheo]
     V = _Viol()
     stats = dict(calls=0, worst_identity=0.0, worst_ref=0.0, worst_classical=0.0, worst_array=0.0, worst_group=0.0,
-                 sign_admitted=0, sign_outside=0, exceptions=0, skipped_on_known_defect=0)
+                 sign_admitted=0, sign_outside=0, exceptions=0, skipped_on_known_defect=0, transient_exceptions=0)
 
     calc_terms, collapse, efunc, ifunc = find_mode_manipulators(lmax, N, use_obl)
     inc_tab = ifunc(obl_val)
@@ -286,10 +286,20 @@ def _run_config(c):
         try:
             return call(spin, e, **kw)
         except Exception as ex:            # noqa: BLE001 -- exceptions of the code under test are the subject
-            stats['exceptions'] += 1
             n_ = kw.get('n_', n)
             s_ = n_ if spin is None else spin
             site = _classify_exception(ex, entry, rheo, pred == 'lossless', pred == 'newton')
+            if site.startswith(f'C10/{entry}/exception/'):
+                # not one of the two known signatures: a deterministic defect raises again; a transient infrastructure hiccup
+                # (seen once: AssertionError while 16 processes were filling a cold numba cache) does not
+                try:
+                    r = call(spin, e, **kw)
+                    stats['transient_exceptions'] += 1
+                    return r
+                except Exception as ex2:   # noqa: BLE001
+                    ex = ex2
+                    site = _classify_exception(ex, entry, rheo, pred == 'lossless', pred == 'newton')
+            stats['exceptions'] += 1
             if site.endswith(('lossless-body-float-love-number', 'newton-zero-frequency-mode')):
                 known_hits[pred] += 1
             V.add(site, dict(form=form, spin_over_n=_ratio(s_, n_), e=e, msg=str(ex)[:200]))
@@ -595,7 +605,8 @@ def run(ctx):
         if cfg and 'only_config' not in v['case']:
             v['case'] = dict(v['case'], only_config=cfg)
     ctx.coverage.update(real_calls=agg.get('calls', 0), calls_raising=agg.get('exceptions', 0),
-                        calls_not_executed_after_known_defect_rederived=agg.get('skipped_on_known_defect', 0), bundles=len(cs), configurations_per_bundle=ncfg,
+                        calls_not_executed_after_known_defect_rederived=agg.get('skipped_on_known_defect', 0),
+                        transient_exceptions_gone_on_retry=agg.get('transient_exceptions', 0), bundles=len(cs), configurations_per_bundle=ncfg,
                         worst_identity_residual=agg.get('worst_identity'), worst_reference_residual=agg.get('worst_ref'),
                         worst_classical_limit_residual=agg.get('worst_classical'), worst_array_vs_scalar=agg.get('worst_array'),
                         worst_grouped_term_residual=agg.get('worst_group'), tolerance=TOL, tolerance_array=TOL_ARR,
